@@ -141,7 +141,7 @@ func (tx *Transaction) validateSigner(ctx *action.Context, signedTx action.Signe
 		return err
 	}
 	// Accept only tx with matched chain ID
-	if ethTx.ChainId().Cmp(tx.ChainID) != 0 {
+	if tx.ChainID == nil || ethTx.ChainId().Cmp(tx.ChainID) != 0 {
 		return ethtypes.ErrInvalidChainId
 	}
 	// Make sure the transaction is signed properly.
